@@ -21,6 +21,7 @@ ASSUMPTIONS = ["sqlfluff.parse is documented to raise APIParsingError on unparsa
 BOUND = {"quick": "as in rule", "thorough": "Sigma_c^<=3 x 4 templaters lint; Sigma_t24^<=4 lint; G(2)xD(1) lint+fix; dialects x G(1)xD(1)"}
 FLOOR = {"quick": 20000, "thorough": 100000}
 CHUNK = 1
+TIMEOUT = 900  # the unlimited-depth nesting cases are slow when the machine is loaded
 
 TPL_CFG = {
     "raw": None,
@@ -81,6 +82,13 @@ def cases(tier):
             out.append({"k": "nest", "kind": kind, "mpd": mpd, "ns": DEPTHS})
     for mpn in (None, 25, 0):
         out.append({"k": "nodes", "mpn": mpn})
+    # every max_parse_depth value around what a tiny file needs (the limit hit during parse, during the
+    # re-parse that validates a fix, exactly at the boundary ...), not a sample of three values
+    for text in ("select  ((1))", "SELECT a  FROM t\n", "SELECT CASE WHEN a THEN (b) END  FROM t"):
+        out.append({"k": "depthscan", "s": text, "lo": 1, "hi": 140})
+    # the (deprecated) character limit: files over it are skipped, never an exception, on every entry point
+    for tpl in TPL_CFG:
+        out.append({"k": "charlimit", "tpl": tpl})
     return out
 
 
@@ -169,6 +177,38 @@ def run_case(case):
         cfgs = sq.jinja_ctx_configs(corpus.T_CTX[case["ctx"]]) if case.get("ctx") is not None else TPL_CFG.get(case["tpl"])
         lnt = sq.linter(case["d"], case["tpl"], configs=cfgs)
         run_modes(lnt, case["s"], case["modes"], case, res, case["d"])
+    elif k == "depthscan":
+        for mpd in range(case["lo"], case["hi"] + 1):
+            if "only" in case and case["only"] != mpd:
+                continue
+            lnt = sq.linter("ansi", "raw", max_parse_depth=mpd)
+            run_modes(lnt, case["s"], ["parse", "lint", "fix"], {"k": "depthscan", "s": case["s"], "lo": mpd, "hi": mpd, "only": mpd}, res)
+    elif k == "charlimit":
+        import sqlfluff
+        from sqlfluff.api.simple import APIParsingError
+        from sqlfluff.core import FluffConfig
+
+        tpl = case["tpl"]
+        cfgs = dict(TPL_CFG[tpl] or {})
+        for limit in (5, 16):
+            lnt = sq.linter("ansi", tpl, configs=cfgs, large_file_skip_char_limit=limit)
+            for s in ("SELECT 1", "SELECT a  FROM t\n", "SELECT a, b, c, d, e, f FROM some_table WHERE x = 1\n"):
+                one = {"k": "charlimit1", "tpl": tpl, "limit": limit, "s": s}
+                run_modes(lnt, s, ["parse", "lint", "fix"], one, res)
+                o = dict(one, modes=["api"])
+
+                def add(clause, features, detail, _one=o):
+                    res["fails"].append({"clause": clause, "features": features, "detail": detail, "case": _one})
+
+                cfg = FluffConfig(configs=cfgs or None, overrides={"dialect": "ansi", "templater": tpl, "large_file_skip_char_limit": limit})
+                res["n"] += 3
+                attempt(lambda: sqlfluff.lint(s, config=cfg), add, "api.lint", res)
+                attempt(lambda: sqlfluff.fix(s, config=cfg), add, "api.fix", res)
+                attempt(lambda: sqlfluff.parse(s, config=cfg), add, "api.parse", res, allow=(APIParsingError,))
+    elif k == "charlimit1":
+        cfgs = dict(TPL_CFG[case["tpl"]] or {})
+        lnt = sq.linter("ansi", case["tpl"], configs=cfgs, large_file_skip_char_limit=case["limit"])
+        run_modes(lnt, case["s"], case.get("modes", ["parse", "lint", "fix"]), case, res)
     elif k == "nest":
         lnt = sq.linter("ansi", "raw", max_parse_depth=case["mpd"])
         for n in case["ns"]:
